@@ -39,7 +39,7 @@ T = {
             "byte-array length edits excluded as the property says"),
     "C13": ("generated XSD built by xmlschema (1.0 and 1.1) + SDK XML documents + pattern translation via elementpath",
             "xmlschema/elementpath are the trusted XSD processors"),
-    "C14": ("single violating edit of valid XML documents must fail XSD validation",
+    "C14": ("violating edits (each breaking one constraint, up to 6 per document) of valid XML documents must fail XSD validation",
             "descendant tightenings of inherited properties excluded as the property says"),
     "C15": ("tag-based reference conjunction vs inferred Constraints, pointwise on sampled values",
             "recognised/near-miss tags come from the generator, evaluated with Python re/len/set"),
@@ -51,13 +51,15 @@ T = {
             "interpreter written from the instruction docstrings; strings without line breaks"),
     "C19": ("literal round-trip through each language's own reader (python compile, g++, javac, node) and spec-derived C#/Go decoders",
             "C# and Go decoders are written from the language specifications (no compiler available)"),
-    "C20": ("adversarial descriptions/values; every generated file parsed by the language's parser or a spec-derived lexer",
+    "C20": ("adversarial descriptions/values; every generated file parsed by the language's parser or a spec-derived lexer; "
+            "function-level sweep of the text->comment/docstring functions embedded in tiny compilation units",
             "C#/Go: lexical well-formedness only"),
     "C21": ("planted colliding identifier pairs; expectation from naming functions + observation on generated output",
             "declared names extracted per target by parser/introspection/regex"),
     "C22": ("metamorphic: same input under different hash seeds, output dirs, snippet listing orders must give identical results",
             "subprocess runs with PYTHONHASHSEED; Path.glob patched in-process"),
-    "C23": ("stateful (RuleBasedStateMachine) histories of cached/uncached runs vs fresh-TMPDIR reference; audit hooks",
+    "C23": ("stateful (RuleBasedStateMachine) histories of cached/uncached runs vs fresh-TMPDIR reference; audit hooks; "
+            "unpickled vs original symbol table: dump, every *_id_set query, output of all 8 targets",
             "file-system accesses observed with sys.addaudithook"),
     "C24": ("exhaustive enumeration of 2-thread schedules x crash points over wrapped fs operations + sampled N=3, real-process kills",
             "yield points = wrapped pathlib/pickle calls on the cache directory"),
@@ -67,7 +69,8 @@ T = {
             "state-machine semantics as relied upon by the C++ emitter"),
     "C27": ("Hypothesis property test against a reference tokenisation/validity predicate",
             "word = space-separated token; article glued to following word"),
-    "C28": ("generated models incl. late errors; smoke verdict vs front end / inference / C# generation + recorded cases replay",
+    "C28": ("generated models incl. late errors and file-level variants (BOM, CRLF, UTF-16 ...); smoke verdict vs front end / "
+            "inference / C# generation + recorded cases replay",
             "C# generation observed through the csharp target with dummy snippets"),
     "C29": ("reference traversal over the spec vs descend/visitor/transformer/accessors of the imported SDK",
             "identity comparison of SDK objects"),
